@@ -132,6 +132,13 @@ fn format_variant(
         Tagged::Externally | Tagged::Untagged => (String::new(), String::new()),
     };
 
+    // `&` binds tighter than `|`: a payload whose spelling is a union (`X | null`, the name of a
+    // `Result`, a type override) is put in parentheses before it is intersected with the tag
+    let intersected = quote! {
+        (|ty: String| if ty.contains('|') { format!("({ty})") } else { ty })
+    };
+    let intersected = |ty: &TokenStream| quote!(#intersected(::std::string::String::from(#ty)));
+
     let formatted = match (untagged_variant, enum_attr.tagged()?) {
         (true, _) | (_, Tagged::Untagged) => quote!(#parsed_ty),
         (false, Tagged::Externally) => match &variant.fields {
@@ -196,14 +203,14 @@ fn format_variant(
                         quote!(format!("{{ \"{}\": \"{}\" }}", #tag, #ts_name))
                     } else {
                         let ty = match field_attr.type_override {
-                            Some(type_override) => quote! { #type_override },
+                            Some(type_override) => intersected(&quote! { #type_override }),
                             None if field_attr.inline => {
                                 let ty = field_attr.type_as(&field.ty);
                                 quote!(format!("({})", <#ty as #crate_rename::TS>::inline()))
                             }
                             None => {
                                 let ty = field_attr.type_as(&field.ty);
-                                quote!(<#ty as #crate_rename::TS>::name())
+                                intersected(&quote!(<#ty as #crate_rename::TS>::name()))
                             }
                         };
 
@@ -212,7 +219,8 @@ fn format_variant(
                 }
                 Fields::Unit => quote!(format!("{{ \"{}\": \"{}\" }}", #tag, #ts_name)),
                 _ => {
-                    quote!(format!("{{ \"{}\": \"{}\" }} & {}", #tag, #ts_name, #parsed_ty))
+                    let intersected_parsed = intersected(&parsed_ty);
+                    quote!(format!("{{ \"{}\": \"{}\" }} & {}", #tag, #ts_name, #intersected_parsed))
                 }
             },
         },
